@@ -809,6 +809,19 @@ func formatEditCoversDocument(c *Ctx, rule string) {
 			for _, el := range cl.Elts {
 				if kv, ok := el.(*ast.KeyValueExpr); ok && types.ExprString(kv.Key) == "Range" {
 					rng, _ = kv.Value.(*ast.CompositeLit)
+					// the range may be built in a local first
+					if id, ok := ast.Unparen(kv.Value).(*ast.Ident); ok && rng == nil {
+						ast.Inspect(fd.Body, func(y ast.Node) bool {
+							if as, ok := y.(*ast.AssignStmt); ok && len(as.Lhs) == 1 && len(as.Rhs) == 1 {
+								if lid, ok := as.Lhs[0].(*ast.Ident); ok && info.ObjectOf(lid) == info.ObjectOf(id) {
+									if l, ok := ast.Unparen(as.Rhs[0]).(*ast.CompositeLit); ok {
+										rng = l
+									}
+								}
+							}
+							return true
+						})
+					}
 				}
 			}
 			why := ""
